@@ -44,7 +44,6 @@ for kind, pre in FILES.items():
     s.result = None
 
     def _eff(ex, A, nets, kind=kind):
-        for m in direct(kind):
-            nets["self"].shadow.set(m)
         nets["self"].frozen_flag = z3.BoolVal(True)
+        nets["self"].shadow.flag = z3.BoolVal(True)
     s.effect = _eff
